@@ -246,6 +246,9 @@ fn run_server(tier: Tier, rng: &mut Rng, out: &mut Out) {
         // judged below with a proper witness
     }
     let mut model = ms::Model::new();
+    // half of the histories are steady: media of one size at a constant spacing
+    let mut steady: Option<(u32, u32)> = if rng.coin() { Some((rng.u32_boundary(), *rng.pick(&[0u32, 20, 33, 40, 1000]))) } else { None };
+    let steady_len = *rng.pick(&[0usize, 1, 10, 127, 128, 129, 300]);
     let mut log: Vec<Value> = vec![json!({"start_clock_ms": start})];
     let len = rng.usize(5, 50);
     let (mut c24, mut c32) = (false, false);
@@ -275,11 +278,17 @@ fn run_server(tier: Tier, rng: &mut Rng, out: &mut Out) {
             Some(sym) => {
                 let mut op = c09::resolve(sym, &model, rng, step);
                 // larger media than the C09 walks use
-                if let ms::Op::SendAudio { data, .. } | ms::Op::SendVideo { data, .. } = &mut op {
-                    let n = *rng.pick(&[0usize, 1, 127, 128, 129, 5000, 70_000, 200_000]);
+                if let ms::Op::SendAudio { data, ts, .. } | ms::Op::SendVideo { data, ts, .. } = &mut op {
+                    let n = if steady.is_some() { steady_len } else { *rng.pick(&[0usize, 1, 127, 128, 129, 5000, 70_000, 200_000]) };
                     *data = rng.bytes(n.min(if rig.s_chunk() <= 2 { 3000 } else { 200_000 }));
                     let t = if rng.coin() { 8 } else { 9 };
                     rng.flv_prefix(t, data);
+                    // steady histories: media of one size at a constant spacing (frames of a
+                    // constant-bit-rate stream), so consecutive headers compress as far as they can
+                    if let Some((clock, delta)) = steady.as_mut() {
+                        *clock = clock.wrapping_add(*delta);
+                        *ts = *clock;
+                    }
                 }
                 let stream = match &op {
                     ms::Op::Accept { id } | ms::Op::Reject { id } => match model.outstanding.get(id) {
@@ -373,6 +382,8 @@ fn run_client(tier: Tier, rng: &mut Rng, out: &mut Out) {
     rig.keep_packets = true;
     let mut expect: Vec<Expect> = Vec::new();
     let mut model = mc::Model::new();
+    let mut steady: Option<(u32, u32)> = if rng.coin() { Some((rng.u32_boundary(), *rng.pick(&[0u32, 20, 33, 40, 1000]))) } else { None };
+    let steady_len = *rng.pick(&[0usize, 1, 10, 127, 128, 129, 300]);
     let mut log: Vec<Value> = vec![json!({"start_clock_ms": start})];
     let len = rng.usize(5, 50);
     let (mut c24, mut c32) = (false, false);
@@ -389,8 +400,12 @@ fn run_client(tier: Tier, rng: &mut Rng, out: &mut Out) {
         } else {
             let sym = if rng.chance(1, 4) && model.st == mc::St::Publishing { *rng.pick(&[c10::Sym::PublishVideo, c10::Sym::PublishAudio, c10::Sym::PublishMetadata, c10::Sym::SendPing]) } else { c10::random_sym(rng, &model) };
             let mut op = c10::resolve(sym, &model, rng, step);
-            if let mc::Op::PublishAudio { data, .. } | mc::Op::PublishVideo { data, .. } = &mut op {
-                let n = *rng.pick(&[0usize, 1, 127, 128, 129, 5000, 70_000, 200_000]);
+            if let mc::Op::PublishAudio { data, ts, .. } | mc::Op::PublishVideo { data, ts, .. } = &mut op {
+                if let Some((clock, delta)) = steady.as_mut() {
+                    *clock = clock.wrapping_add(*delta);
+                    *ts = *clock;
+                }
+                let n = if steady.is_some() { steady_len } else { *rng.pick(&[0usize, 1, 127, 128, 129, 5000, 70_000, 200_000]) };
                 *data = rng.bytes(n.min(if rig.s_chunk() <= 2 { 3000 } else { 200_000 }));
                     let t = if rng.coin() { 8 } else { 9 };
                     rng.flv_prefix(t, data);
@@ -461,7 +476,7 @@ impl Check for C18 {
         }
     }
     fn rule(&self) -> String {
-        "session histories of 5-50 steps: the C09 (server) and C10 (client) symbol walks with a quarter of the steps replaced by media / metadata / ping sends (payloads {0,1,127,128,129,5000,70000,200000}, droppable flags, arbitrary timestamps), optionally a peer window announcement so acknowledgements appear; configurations: chunk size {1,2,127,128,129,4096,65536,2^31-1, uniform}, window {1,100,2.5M,2^32-1}, onBWDone on/off. Virtual session clock: start from {0, 2^24-k, 2^24, 2^31+-k, 2^32-k, 2^32-1-j, 2^32+k, 2*2^32+k, uniform 0..2^33} and advance before each call by {0,1,33,40,1000,2^24-1,2^24,2^31}. Every packet every public call returned is logged in order with what the history expects of it. The independent strict decoder must decode the log packet by packet (each packet exactly one whole message), every message body must be well formed per the reference layouts, protocol-control and connection-level messages on message stream 0 and stream-level commands/media on the stream of the operation that produced them, droppable mark never on a packet the application did not ask to be droppable (a mark withheld is counted, not judged; whether session-originated timestamps equal the session clock modulo 2^32 is counted, not judged); then every subset (k <= 5, thorough 8; sampled beyond) of the droppable packets is removed and the rest must decode to exactly the same messages. distinct = (symbol sequence hash, start clock class, packets).".to_string()
+        "session histories of 5-50 steps: the C09 (server) and C10 (client) symbol walks with a quarter of the steps replaced by media / metadata / ping sends (payloads {0,1,127,128,129,5000,70000,200000}, droppable flags, arbitrary timestamps; in half of the histories media of one size at a constant spacing of 0-1000 ms), optionally a peer window announcement so acknowledgements appear; configurations: chunk size {1,2,127,128,129,4096,65536,2^31-1, uniform}, window {1,100,2.5M,2^32-1}, onBWDone on/off. Virtual session clock: start from {0, 2^24-k, 2^24, 2^31+-k, 2^32-k, 2^32-1-j, 2^32+k, 2*2^32+k, uniform 0..2^33} and advance before each call by {0,1,33,40,1000,2^24-1,2^24,2^31}. Every packet every public call returned is logged in order with what the history expects of it. The independent strict decoder must decode the log packet by packet (each packet exactly one whole message), every message body must be well formed per the reference layouts, protocol-control and connection-level messages on message stream 0 and stream-level commands/media on the stream of the operation that produced them, droppable mark never on a packet the application did not ask to be droppable (a mark withheld is counted, not judged; whether session-originated timestamps equal the session clock modulo 2^32 is counted, not judged); then every subset (k <= 5, thorough 8; sampled beyond) of the droppable packets is removed and the rest must decode to exactly the same messages. distinct = (symbol sequence hash, start clock class, packets).".to_string()
     }
     fn assumptions(&self) -> Vec<String> {
         vec![
